@@ -15,7 +15,7 @@ RULE = ("trees with decoys: files sharing name (or path), size and time-stamp wi
         "the array; with and without -h (pre-hash) and --force-nocopy; provisional hashes carried over --test-kill-after-sync. Oracle: "
         "after every sync, every block recorded synced has the frozen-reference hash of the bytes the harness wrote and the C06 parity "
         "oracle holds; a sync that met a decoy fails (and with -h no parity byte changes); after fix, every recorded file under its name "
-        "has the bytes of the recorded version or is reported unrecoverable - bytes from a decoy never appear. distinct = (tree, commands).")
+        "has the bytes of the recorded version or is reported unrecoverable - bytes from a decoy never appear. Move mode, every other case: two data disks are replaced (UUID to other UUID) while two same-size same-stamp files come back with each other's inode number. distinct = (tree, commands).")
 
 
 def _unmatched(res):
